@@ -278,6 +278,8 @@ def gen_data(r, dim, stripes, M, res=64):
 def gen_case(ctx, thorough):
     r = ctx.rng
     kind = r.choice(["uniform", "uniform", "dimwise", "dimwise", "dimwise"])
+    if r.random() < 0.06:
+        return gen_boundary_case(ctx)
     big = r.random() < (0.12 if not thorough else 0.2)
     dim = r.choice([1, 2, 2, 3])
     lam = r.choice(LAMS)
@@ -312,6 +314,73 @@ def gen_case(ctx, thorough):
     return {"kind": kind, "dim": dim, "lv": lv, "stripes": [[frac_str(c) for c in s] for s in stripes],
             "lam": frac_str(lam), "lumped": lumped, "classes": classes, "numeric": numeric,
             "data": [[frac_str(c) for c in x] for x in data], "big": big, "bigR": bool(big and (thorough or r.random() < 0.35))}
+
+
+def gen_boundary_case(ctx):
+    """dimension-wise grid WITH boundary points (`GlobalTrapezoidalGrid(boundary=True)`, as in the repository's own
+    test_dim_wise_run); oracle only (the model covers grids without boundary points)"""
+    r = ctx.rng
+    dim = r.choice([1, 2, 2])
+    stripes = [gen_stripe(r, {1: 9, 2: 6}[dim], 4) for _ in range(dim)]
+    M = r.choice([4, 8, 16])
+    data = gen_data(r, dim, stripes, M)
+    if r.random() < 0.5:
+        data = [[c if c != 1 else F(r.randint(32, 63), 64) for c in x] for x in data]
+    return {"kind": "dimwise-boundary", "dim": dim, "lv": None, "stripes": [[frac_str(c) for c in s] for s in stripes],
+            "lam": frac_str(r.choice(LAMS)), "lumped": False, "classes": [r.choice([-1, 1]) for _ in range(M)] if r.random() < 0.3 else None,
+            "numeric": False, "data": [[frac_str(c) for c in x] for x in data], "big": False, "bigR": False}
+
+
+def run_boundary_case(ck, case):
+    from sparseSpACE.GridOperation import DensityEstimation
+    from sparseSpACE.Grid import GlobalTrapezoidalGrid
+    ctx = ck.ctx
+    dim = case["dim"]
+    stripes = [[F(c) for c in s] for s in case["stripes"]]
+    lam = F(case["lam"])
+    data = [[F(c) for c in x] for x in case["data"]]
+    classes = case["classes"]
+    signs = [F(c) for c in classes] if classes is not None else [F(1)] * len(data)
+    g = GlobalTrapezoidalGrid(a=np.zeros(dim), b=np.ones(dim), boundary=True, modified_basis=False)
+    op = DensityEstimation(np.array([[float(c) for c in x] for x in data]), dim, grid=g, lambd=float(lam),
+                           classes=None if classes is None else np.array([float(c) for c in classes]), **quiet())
+    cont = _Container()
+    op.init_dimension_wise(g, g, cont, 1, [1] * dim, np.zeros(dim), np.ones(dim))
+    op.initialize_evaluation_dimension_wise(cont)
+    levels = [[node_level(c) for c in s] for s in stripes]
+    # hats incl. the half hats on the boundary nodes: ghost nodes one unit outside
+    ext = [[s[0] - 1] + s + [s[-1] + 1] for s in stripes]
+    hats = hats_of(ext)
+    N = len(hats)
+    Gs = []
+    for s, e in zip(stripes, ext):
+        n = len(s)
+        hs = [(e[k + 1], e[k], e[k + 2]) for k in range(n)]
+        G1 = [[F(0)] * n for _ in range(n)]
+        for i in range(n):
+            for j in range(n):
+                tot = F(0)
+                for c in range(len(s) - 1):
+                    a, b = s[c], s[c + 1]
+                    f = lambda x: hat_ref(*hs[i], x) * hat_ref(*hs[j], x)
+                    m = (a + b) / 2
+                    tot += (b - a) / 6 * (f(a) + 4 * f(m) + f(b))      # cells of the unit interval only
+                G1[i][j] = tot
+        Gs.append(G1)
+    idx = list(itertools.product(*[range(len(s)) for s in stripes]))
+    G = [[math.prod(Gs[d][I[d]][J[d]] for d in range(dim)) for J in idx] for I in idx]
+    tags = {"kind": "dimwise-boundary", "dim": dim, "classes": classes is not None}
+    R = op.build_R_matrix_dimension_wise(fl(stripes), levels)
+    check_matrix(ck, R, None, G, lam, case, "build_R_matrix_dimension_wise(boundary grid)", dict(tags, boundary_grid=True))
+    b = op.calculate_B_dimension_wise(op.data, fl(stripes), levels)
+    # with the ghost nodes the half hats are 1 at their boundary node and linear towards the neighbour
+    bref = [sum(hat_nd_ref(h, x) * sg for x, sg in zip(data, signs)) / len(data) for h in hats]
+    if not vec_near(b, bref):
+        k = next(i for i in range(N) if not near(b[i], bref[i]))
+        on_upper = any(c == 1 for x in data for c in x)
+        ck.viol("rhs-is-sample-mean-boundary-grid", dict(tags, sample_on_upper_boundary=on_upper), case,
+                {"entry": k, "impl": float(b[k]), "sample_mean": str(bref[k])})
+    ctx.count("boundary_grid_cases")
 
 
 # ------------------------------------------------------------------ one case
@@ -506,6 +575,8 @@ def run_case(ctx, drv, case):
 
 def _run_case(ck, case):
     from sparseSpACE.ComponentGridInfo import ComponentGridInfo
+    if case["kind"] == "dimwise-boundary":
+        return run_boundary_case(ck, case)
     ctx, drv = ck.ctx, ck.drv
     r = ctx.rng
     dim = case["dim"]
